@@ -241,6 +241,16 @@ class Verdict:
         self.assumptions = []
         self.findings = load_known_findings()
         self._distinct = set()
+        self._replay_keys = {}
+        self._last_replay = None
+        # stale replay files of this property belong to an earlier run
+        if os.path.isdir(REPLAYS):
+            for n in os.listdir(REPLAYS):
+                if n.startswith(prop + "-"):
+                    try:
+                        os.unlink(os.path.join(REPLAYS, n))
+                    except OSError:
+                        pass
 
     # coverage helpers
     def add_tlc(self, r, name=None):
@@ -266,10 +276,17 @@ class Verdict:
                 self.known_hits.setdefault(f["id"], f.get("what", f.get("description", "")))
                 return False
         os.makedirs(REPLAYS, exist_ok=True)
-        path = os.path.join(REPLAYS, "%s-%d.json" % (self.prop, len(self.violations) + 1))
-        with open(path, "w") as fh:
-            json.dump({"property": self.prop, "signature": signature, "description": description,
-                       "replay": replay_obj}, fh, indent=1, default=str)
+        key = tuple(signature.get(k) for k in ("check", "fault", "at", "mode", "head", "msg", "layout", "context", "expected",
+                                               "target", "structured", "file_level", "dir"))
+        if key in self._replay_keys or len(self._replay_keys) >= 80:
+            path = self._replay_keys.get(key) or self._last_replay
+        else:
+            path = os.path.join(REPLAYS, "%s-%d.json" % (self.prop, len(self._replay_keys) + 1))
+            with open(path, "w") as fh:
+                json.dump({"property": self.prop, "signature": signature, "description": description,
+                           "replay": replay_obj}, fh, indent=1, default=str)
+            self._replay_keys[key] = path
+            self._last_replay = path
         self.violations.append((signature, description, path))
         return True
 
@@ -298,7 +315,8 @@ class Verdict:
             log("SPEC-DRIFT: property=%s %s" % (self.prop, d))
         seen = set()
         for sig, desc, path in self.violations:
-            key = (sig.get("check"), sig.get("fault"), sig.get("at"), sig.get("mode"))
+            key = tuple(sig.get(k) for k in ("check", "fault", "at", "mode", "head", "msg", "layout", "context", "expected",
+                                             "target", "structured", "file_level", "dir"))
             if key in seen:
                 continue
             seen.add(key)
